@@ -89,6 +89,8 @@ pub enum SubCmd {
 	Return(u32),
 	/// drop the pending sink without accept/reject and return
 	DropPending,
+	/// the callback returns Ok(()) while a worker task keeps the sink (and its clones) and goes on obeying commands
+	Detach,
 }
 
 #[derive(Debug, Clone)]
@@ -147,8 +149,22 @@ pub fn blob_string(n: usize, kind: u64) -> String {
 	}
 }
 
-pub fn build_module(log: Log, subs: SubRegistry, auto_sub: bool) -> RpcModule<()> {
+pub fn build_module(log: Log, subs: SubRegistry, auto_sub: bool, hang: tokio::sync::watch::Receiver<bool>) -> RpcModule<()> {
 	let mut m = RpcModule::new(());
+	{
+		// a call that does not finish until the harness says so (`World::release_hangs`)
+		let log = log.clone();
+		m.register_async_method("hang", move |p, _, ext| {
+			let (log, mut hang) = (log.clone(), hang.clone());
+			async move {
+				log_invocation(&log, &ext, "hang", &p);
+				let _ = hang.wait_for(|released| *released).await;
+				rt::event("handler-done", "hang");
+				p.parse::<Value>()
+			}
+		})
+		.unwrap();
+	}
 	{
 		let log = log.clone();
 		m.register_method("echo", move |p, _, ext| {
@@ -288,8 +304,27 @@ fn raw(n: u64) -> SubscriptionMessage {
 	SubscriptionMessage::from(serde_json::value::to_raw_value(&n).unwrap())
 }
 
+struct SubState {
+	ctl: Arc<SubCtl>,
+	rx: mpsc::UnboundedReceiver<SubCmd>,
+	pending: Option<PendingSubscriptionSink>,
+	sink: Option<SubscriptionSink>,
+	clones: Vec<SubscriptionSink>,
+}
+
+enum LoopEnd {
+	Return(Result<(), jsonrpsee_core::SubscriptionError>),
+	/// the callback returns now; a worker task keeps the sinks and goes on obeying commands
+	Detach(SubState),
+}
+
+fn sub_ev(ctl: &SubCtl, invoked: u64, what: &str, ok: bool, payload: Option<u64>) {
+	let returned = rt::event("sub-op", format!("{} {what} ok={ok} payload={payload:?}", ctl.sub_id));
+	ctl.events.lock().unwrap().push(SubEvent { invoked, returned, what: what.to_string(), ok, payload });
+}
+
 async fn run_controlled_sub(p: Params<'static>, pending: PendingSubscriptionSink, ext: Extensions, subs: SubRegistry) -> Result<(), jsonrpsee_core::SubscriptionError> {
-	let (tx, mut rx) = mpsc::unbounded_channel();
+	let (tx, rx) = mpsc::unbounded_channel();
 	let ctl = Arc::new(SubCtl {
 		conn: conn_of(&ext),
 		sub_id: serde_json::to_string(&pending.subscription_id()).unwrap(),
@@ -301,22 +336,39 @@ async fn run_controlled_sub(p: Params<'static>, pending: PendingSubscriptionSink
 		released: Arc::default(),
 	});
 	subs.lock().unwrap().push(ctl.clone());
-	let ev = |ctl: &SubCtl, invoked: u64, what: &str, ok: bool, payload: Option<u64>| {
-		let returned = rt::event("sub-op", format!("{} {what} ok={ok} payload={payload:?}", ctl.sub_id));
-		ctl.events.lock().unwrap().push(SubEvent { invoked, returned, what: what.to_string(), ok, payload });
-	};
-	let mut pending = Some(pending);
-	let mut sink: Option<SubscriptionSink> = None;
-	let mut clones: Vec<SubscriptionSink> = Vec::new();
+	let st = SubState { ctl: ctl.clone(), rx, pending: Some(pending), sink: None, clones: Vec::new() };
+	match sub_loop(st, false).await {
+		LoopEnd::Return(r) => r,
+		LoopEnd::Detach(st) => {
+			rt::probe("sub_handler_detached");
+			rt::spawn("sub-worker", async move {
+				let _ = sub_loop(st, true).await;
+			});
+			*ctl.finished.lock().unwrap() = Some(rt::event("sub-handler-returned-sinks-kept", ctl.sub_id.clone()));
+			Ok(())
+		}
+	}
+}
+
+async fn sub_loop(mut st: SubState, detached: bool) -> LoopEnd {
+	let ctl = st.ctl.clone();
+	let ev = sub_ev;
 	let mut ret = Ok(());
-	while let Some(cmd) = rx.recv().await {
+	while let Some(cmd) = st.rx.recv().await {
 		let inv = rt::event("sub-cmd", format!("{} {cmd:?}", ctl.sub_id));
+		let SubState { pending, sink, clones, .. } = &mut st;
 		match cmd {
+			SubCmd::Detach => {
+				if !detached && (sink.is_some() || !clones.is_empty()) {
+					ev(&ctl, inv, "detach", true, None);
+					return LoopEnd::Detach(st);
+				}
+			}
 			SubCmd::Accept => {
 				if let Some(p) = pending.take() {
 					match p.accept().await {
 						Ok(s) => {
-							sink = Some(s);
+							*sink = Some(s);
 							ev(&ctl, inv, "accept", true, None);
 						}
 						Err(_) => {
@@ -330,7 +382,7 @@ async fn run_controlled_sub(p: Params<'static>, pending: PendingSubscriptionSink
 				if let Some(p) = pending.take() {
 					match tokio::time::timeout(Duration::from_millis(ms), p.accept()).await {
 						Ok(Ok(s)) => {
-							sink = Some(s);
+							*sink = Some(s);
 							ev(&ctl, inv, "accept", true, None);
 						}
 						Ok(Err(_)) => {
@@ -412,16 +464,19 @@ async fn run_controlled_sub(p: Params<'static>, pending: PendingSubscriptionSink
 			}
 		}
 	}
+	let SubState { pending, sink, clones, .. } = st;
 	let had_sink = sink.is_some() || !clones.is_empty() || pending.is_some();
 	drop(clones);
 	drop(sink);
 	drop(pending);
-	let st = rt::event("sub-handler-finished", ctl.sub_id.clone());
+	let stamp = rt::event(if detached { "sub-worker-finished" } else { "sub-handler-finished" }, ctl.sub_id.clone());
 	if had_sink {
-		*ctl.released.lock().unwrap() = Some(st);
+		*ctl.released.lock().unwrap() = Some(stamp);
 	}
-	*ctl.finished.lock().unwrap() = Some(st);
-	ret
+	if !detached {
+		*ctl.finished.lock().unwrap() = Some(stamp);
+	}
+	LoopEnd::Return(ret)
 }
 
 // ------------------------------------------------------------------------------------------------
@@ -554,6 +609,7 @@ pub struct World {
 	ll_conn_id: Arc<AtomicU32>,
 	pub conns: Vec<(Ctl, tokio::task::JoinHandle<()>)>,
 	listener: Option<usize>,
+	hang_tx: tokio::sync::watch::Sender<bool>,
 }
 
 impl World {
@@ -561,7 +617,8 @@ impl World {
 		let log: Log = Arc::default();
 		let subs: SubRegistry = Arc::default();
 		let ids = Arc::new(ScriptedIds::default());
-		let module = build_module(log.clone(), subs.clone(), cfg.auto_sub);
+		let (hang_tx, hang_rx) = tokio::sync::watch::channel(false);
+		let module = build_module(log.clone(), subs.clone(), cfg.auto_sub, hang_rx);
 		let mut b = ServerConfig::builder();
 		if cfg.ping {
 			b = b.enable_ws_ping(jsonrpsee_server::PingConfig::new().ping_interval(Duration::from_secs(1)).inactive_limit(Duration::from_secs(2)).max_failures(1));
@@ -592,6 +649,7 @@ impl World {
 			ll_conn_id: Arc::default(),
 			conns: Vec::new(),
 			listener: None,
+			hang_tx,
 		}
 	}
 
@@ -609,8 +667,27 @@ impl World {
 		self.server_handle = Some(handle);
 	}
 
+	/// Let every `hang` call finish.
+	pub fn release_hangs(&self) {
+		rt::event("release-hangs", "");
+		let _ = self.hang_tx.send(true);
+	}
+
 	/// A new simulated TCP connection to the server; returns the peer's end.
 	pub fn connect(&mut self, label: &str) -> (End, Ctl) {
+		let (a, ctl, _) = self.connect_inner(label, false);
+		(a, ctl)
+	}
+
+	/// Like `connect`, but the connection gets a stop channel of its own (as in the library's low-level examples),
+	/// so that the server side can close this one connection gracefully. Not for `Entry::Default`.
+	pub fn connect_own_stop(&mut self, label: &str) -> (End, Ctl, ServerHandle) {
+		assert!(self.cfg.entry != Entry::Default);
+		let (a, ctl, h) = self.connect_inner(label, true);
+		(a, ctl, h.expect("own stop channel"))
+	}
+
+	fn connect_inner(&mut self, label: &str, own_stop: bool) -> (End, Ctl, Option<ServerHandle>) {
 		let (a, b, ctl) = stream::pair(label, self.cfg.frag);
 		if self.cfg.entry == Entry::Default {
 			let k = self.listener.expect("World::start() must be awaited first");
@@ -619,9 +696,14 @@ impl World {
 			let _ = jsonrpsee_core::verif::net::incoming(k, Ok((jsonrpsee_core::verif::net::TcpStream::new(b), addr)));
 			let h = rt::spawn("noop", async {});
 			self.conns.push((ctl.clone(), h));
-			return (a, ctl);
+			return (a, ctl, None);
 		}
-		let stop_handle = self.stop_handle.clone().expect("server not stopped");
+		let (stop_handle, own_handle) = if own_stop {
+			let (s, h) = stop_channel();
+			(s, Some(h))
+		} else {
+			(self.stop_handle.clone().expect("server not stopped"), None)
+		};
 		let h = match self.cfg.entry {
 			Entry::Default => unreachable!(),
 			Entry::Tower => {
@@ -666,7 +748,7 @@ impl World {
 			}
 		};
 		self.conns.push((ctl.clone(), h));
-		(a, ctl)
+		(a, ctl, own_handle)
 	}
 
 	/// Call the tower service directly with a request (no hyper, no stream): the "HTTP transport" of jsonrpsee
